@@ -2,6 +2,10 @@
 
 package errors
 
+import "strings"
+
+var _ = strings.Count // used in contracts
+
 // Contracts checked by /verif/hvc (build tag verif only; see /verif/DESIGN.md).
 
 /*@ func (self *Location) Advance
@@ -15,4 +19,33 @@ package errors
 /*@ func (self Location) Until
     serves C08
     ensures result.Start == self && result.End == end && result.Filename == filename
+@*/
+
+// VRenderable: the span can be rendered against the text: its start line
+// exists in the text, the start column is at most one past the end of that
+// line, and a single-line span does not end before it starts.
+func VRenderable(s Span, program string) bool {
+	if s.Start.Line < 1 || int(s.Start.Line) > strings.Count(program, "\n")+1 {
+		return false
+	}
+	if s.Start.Column > 1<<31 || s.End.Column > 1<<31 || s.End.Line > 1<<31 {
+		return false
+	}
+	if int(s.Start.Column) > len(strings.Split(program, "\n")[s.Start.Line-1])+1 {
+		return false
+	}
+	if s.Start.Line == s.End.Line {
+		return s.Start.Column <= s.End.Column
+	}
+	return s.Start.Line < s.End.Line
+}
+
+/*@ func (self Error) Display
+    serves C08
+    requires VRenderable(self.Span, program)
+@*/
+
+/*@ func (self ErrorKind) String
+    serves C08, C05
+    requires self <= ImportError
 @*/
